@@ -222,11 +222,15 @@ func (r *Runtime) newPromiseReactionJob(reaction *promiseReaction, argument Valu
 			}
 		}
 		if reaction.capability != nil {
-			if fulfill {
-				reaction.capability.resolve(handlerResult)
-			} else {
-				reaction.capability.reject(handlerResult)
-			}
+			// The resolving functions of a subclass promise are user code. An exception they throw is the abrupt
+			// completion of the job, which has nowhere to go: it must not leave the job as a Go panic.
+			_ = r.vm.try(func() {
+				if fulfill {
+					reaction.capability.resolve(handlerResult)
+				} else {
+					reaction.capability.reject(handlerResult)
+				}
+			})
 		}
 	}
 }
